@@ -271,7 +271,7 @@ def draw(
 
     ax, pos = _draw_init(H, ax, pos)
 
-    if not max_order:
+    if max_order is None:
         max_order = max_edge_order(H)
 
     if isinstance(H, SimplicialComplex):
@@ -959,7 +959,7 @@ def draw_simplices(
 
     """
 
-    if max_order:
+    if max_order is not None:
         max_edges = SC.edges.filterby("order", max_order, "leq").members()
         SC = SimplicialComplex(max_edges)  # SC without simplices larger than max_order
 
@@ -967,8 +967,9 @@ def draw_simplices(
     H_ = convert.from_max_simplices(SC)
 
     # add the projected pairwise interactions
-    dyads = subfaces(H_.edges.members(), order=1)
-    H_.add_edges_from(dyads)
+    larger = [e for e in H_.edges.members() if len(e) > 1]
+    if larger:
+        H_.add_edges_from(subfaces(larger, order=1))
     H_.cleanup(
         multiedges=False,
         isolates=True,
@@ -978,7 +979,7 @@ def draw_simplices(
         singletons=True,
     )  # remove multi-dyads
 
-    if not max_order:
+    if max_order is None:
         max_order = max_edge_order(H_)
 
     ax, (dyad_collection, edge_collection) = draw_hyperedges(
@@ -1853,7 +1854,7 @@ def draw_bipartite(
     if ax is None:
         ax = plt.gca()
 
-    if not max_order:
+    if max_order is None:
         max_order = max_edge_order(H)
 
     D = H.dual()
@@ -2035,7 +2036,7 @@ def draw_undirected_dyads(
     if dyad_color is None:  # color is proportional to size
         dyad_color = H.edges.size
 
-    if not max_order:
+    if max_order is None:
         edge_ids = list(H.edges)
         max_order = max_edge_order(H)
     else:
@@ -2238,7 +2239,7 @@ def draw_directed_dyads(
     if dyad_color is None:  # color is proportional to size
         dyad_color = H.edges.size
 
-    if not max_order:
+    if max_order is None:
         edge_ids = list(H.edges)
         max_order = H.edges.order.max()
     else:
